@@ -232,6 +232,18 @@ func rejectReturns(u *core.Unit) []rejectReturn {
 			}
 		}
 		rr.br = innermostFact(g, r.Loc)
+		if rr.br != nil {
+			plain := false
+			ast.Inspect(rr.br.Br.Cond, func(n ast.Node) bool {
+				if ce, isC := n.(*ast.CallExpr); isC && calleeNameOf(ce) == "HandlesUpgrades" {
+					plain = true
+				}
+				return true
+			})
+			if plain {
+				rr.name = rr.code + "[PLAIN_REQUEST_ON_UPGRADE_ONLY_SESSION]"
+			}
+		}
 		out = append(out, rr)
 	}
 	return out
@@ -239,7 +251,7 @@ func rejectReturns(u *core.Unit) []rejectReturn {
 
 func c05Precedence(c *core.Ctx) {
 	const R = "C05.2"
-	c.Rule(R, "precedence in Verify (read off the CFG): each later reject is dominated by the pass edge of every earlier check on its branch — UNKNOWN_TRANSPORT ≺ BAD_REQUEST[INVALID_ORIGIN] ≺ {sid: UNKNOWN_SID ≺ BAD_REQUEST[TRANSPORT_MISMATCH]} | {no sid: BAD_HANDSHAKE_METHOD ≺ BAD_REQUEST[TRANSPORT_HANDSHAKE_ERROR] ≺ FORBIDDEN}; the admitting return is reached only through all checks of its branch; each reject carries its documented code")
+	c.Rule(R, "precedence in Verify (read off the CFG): each later reject is dominated by the pass edge of every earlier check on its branch — UNKNOWN_TRANSPORT ≺ BAD_REQUEST[INVALID_ORIGIN] ≺ {sid: UNKNOWN_SID ≺ BAD_REQUEST[TRANSPORT_MISMATCH] ≺ BAD_REQUEST[plain request on an upgrade-only session]} | {no sid: BAD_HANDSHAKE_METHOD ≺ BAD_REQUEST[TRANSPORT_HANDSHAKE_ERROR] ≺ FORBIDDEN}; the admitting return is reached only through all checks of its branch; each reject carries its documented code")
 	u := c.Fn(R, bsVerify)
 	if u == nil {
 		return
@@ -251,7 +263,7 @@ func c05Precedence(c *core.Ctx) {
 	for i := range rrs {
 		by[rrs[i].name] = &rrs[i]
 	}
-	names := []string{"UNKNOWN_TRANSPORT", "BAD_REQUEST[INVALID_ORIGIN]", "UNKNOWN_SID", "BAD_REQUEST[TRANSPORT_MISMATCH]", "BAD_HANDSHAKE_METHOD", "BAD_REQUEST[TRANSPORT_HANDSHAKE_ERROR]", "FORBIDDEN"}
+	names := []string{"UNKNOWN_TRANSPORT", "BAD_REQUEST[INVALID_ORIGIN]", "UNKNOWN_SID", "BAD_REQUEST[TRANSPORT_MISMATCH]", "BAD_REQUEST[PLAIN_REQUEST_ON_UPGRADE_ONLY_SESSION]", "BAD_HANDSHAKE_METHOD", "BAD_REQUEST[TRANSPORT_HANDSHAKE_ERROR]", "FORBIDDEN"}
 	for _, n := range names {
 		c.Exists(R, bsVerify+"/reject:"+n, u.Pos(), by[n] != nil && by[n].br != nil, "reject return present with a deciding condition")
 	}
@@ -259,6 +271,7 @@ func c05Precedence(c *core.Ctx) {
 	prec := [][2]string{
 		{"UNKNOWN_TRANSPORT", "BAD_REQUEST[INVALID_ORIGIN]"},
 		{"BAD_REQUEST[INVALID_ORIGIN]", "UNKNOWN_SID"}, {"UNKNOWN_SID", "BAD_REQUEST[TRANSPORT_MISMATCH]"},
+		{"BAD_REQUEST[TRANSPORT_MISMATCH]", "BAD_REQUEST[PLAIN_REQUEST_ON_UPGRADE_ONLY_SESSION]"},
 		{"BAD_REQUEST[INVALID_ORIGIN]", "BAD_HANDSHAKE_METHOD"}, {"BAD_HANDSHAKE_METHOD", "BAD_REQUEST[TRANSPORT_HANDSHAKE_ERROR]"},
 		{"BAD_REQUEST[TRANSPORT_HANDSHAKE_ERROR]", "FORBIDDEN"},
 		{"UNKNOWN_TRANSPORT", "UNKNOWN_SID"}, {"UNKNOWN_TRANSPORT", "BAD_HANDSHAKE_METHOD"},
@@ -304,7 +317,7 @@ func c05Precedence(c *core.Ctx) {
 		condLoc := func(rr *rejectReturn) core.Loc {
 			return core.Loc{B: rr.br.Br.B, I: len(rr.br.Br.B.Nodes) - 1}
 		}
-		for _, n := range []string{"UNKNOWN_SID", "BAD_REQUEST[TRANSPORT_MISMATCH]"} {
+		for _, n := range []string{"UNKNOWN_SID", "BAD_REQUEST[TRANSPORT_MISMATCH]", "BAD_REQUEST[PLAIN_REQUEST_ON_UPGRADE_ONLY_SESSION]"} {
 			if by[n] != nil && by[n].br != nil {
 				c.Check(R, keyf("%s/admit(sid)-evaluates:%s", bsVerify, n), okRet.Stmt.Pos(), unavoidable(split.Edge, condLoc(by[n])), "the check cannot be bypassed on the sid branch")
 			}
